@@ -37,7 +37,8 @@ GInit == Init /\ hist = <<>>
 GNext ==
   /\ \/ \E u \in UIDs, w \in Writes : First(u) /\ Post(u, u, w)
      \/ \E pu \in UIDs, bu \in UIDs : pu # bu /\ First(pu) /\ Post(pu, bu, MismatchW)
-     \/ PostMalformed("all")            \* the replay sends every kind of MalformedKinds at this step
+     \/ PostMalformed("all")            \* the replay sends every kind of MalformedKinds at this step (and two
+                                        \* POSTs whose body names a UID outside UIDs: Post(pu, bu, w) with pu # bu)
      \/ \E u \in UIDs : First(u) /\ Delete(u)
      \/ Reopen
      \/ \E u \in UIDs, up \in VS(UpUsages), dn \in VS(DownUsages) : First(u) /\ Upload(u, up, dn)
